@@ -1,6 +1,6 @@
 (* C07 — contracts pay out exactly once; revisions keep totals; storage proofs. *)
 From Coq Require Import ZArith List Bool.
-From Sia Require Import Prim.Result Prim.Tok Policy.Model Ledger.Types Ledger.Mid Ledger.Validate Ledger.Apply Ledger.Proofs Merkle.Rhp Merkle.StorageProof Merkle.StorageSound.
+From Sia Require Import Prim.Result Prim.Tok Policy.Model Ledger.Types Ledger.Mid Ledger.Validate Ledger.Apply Ledger.Proofs Merkle.Rhp Merkle.StorageProof Merkle.StorageSound Merkle.RgConv2.
 Import ListNotations.
 Open Scope Z_scope.
 
@@ -76,3 +76,13 @@ Theorem C07_storage_proof_short : forall H x i filesize proof,
   (length proof < Z.to_nat (StorageProof.blen (Z.lxor i last)))%nat -> sp_root_v2 H x i filesize proof = repeat 0%N 32.
 Proof. exact sp_root_v2_short. Qed.
 Print Assumptions C07_storage_proof_short.
+
+(* the RHP side of a v2 storage proof: the host builds the left-to-right proof of the challenged leaf over the sector's leaf
+   hashes (BuildSectorProof) and reorders it (ConvertProofOrdering); for every sector content (2^a leaf hashes) and every
+   leaf that reordered proof is accepted by the consensus verifier against the plain root *)
+Theorem C07_rhp_leaf_proof_accepted_by_consensus : forall H (a : nat) (L : list Rhp.hash) i filesize d,
+  (1 <= a <= 30)%nat -> length L = Nat.pow 2 a -> (i < 2 ^ N.of_nat a)%N ->
+  0 < filesize < 2 ^ 64 -> Z.of_nat (length L) = sp_num_leaves filesize ->
+  sp_root_v2 H (nth (N.to_nat i) L d) (Z.of_nat (N.to_nat i)) filesize (convert_proof_ordering (build_range_proof H L i (i + 1)) i) = mroot H L.
+Proof. exact converted_proof_accepted. Qed.
+Print Assumptions C07_rhp_leaf_proof_accepted_by_consensus.
